@@ -224,7 +224,7 @@ def run(ctx: Ctx) -> None:
         return
 
     # 2. real system-call traces
-    plans = [(5, 0), (4000, 0)] if quick else [(5, 0), (4000, 0), (3, 1), (20000, 2), (1, 3), (700, 1)]
+    plans = [(5, 0), (4000, 0)] if quick else [(5, 0), (4000, 0), (3, 1), (20000, 2), (1, 3), (700, 1), (60000, 0), (50, 4), (9000, 3), (2, 2)]
     traces: List[Dict[str, Any]] = []
     names: List[str] = []
     with ThreadPoolExecutor(max_workers=3) as ex:
